@@ -372,6 +372,46 @@ func ruleC08RefcountProtocol(c *Ctx) {
 				"the wrapped CryptoKey of a cached key is closed directly, bypassing the reference count: users holding the key get a destroyed secret")
 		})
 	}
+	// (2b) the cache's own reference is released only when the entry leaves the cache: inside keyCache methods a
+	// Close() on a key that came out of a cache lookup (not a tracked hand-out) must be followed, on every path, by a
+	// keys.Set that replaces the entry under the same id.
+	for _, f := range u.RepoFuncs {
+		if rootFunc(f).Signature.Recv() == nil || namedTypeName(rootFunc(f).Signature.Recv().Type()) != "keyCache" {
+			continue
+		}
+		allInstrs(f, func(i ssa.Instruction) {
+			cc := callOf(i)
+			if cc == nil || staticCallee(i) != cl {
+				return
+			}
+			if _, isCall := i.(*ssa.Call); !isCall {
+				if _, isDefer := i.(*ssa.Defer); !isDefer {
+					return
+				}
+			}
+			origins := lookupOrigins(cc.Args[0])
+			if len(origins) == 0 {
+				return
+			}
+			c.CallSites++
+			construct := shortName(f) + "/cache-reference-release"
+			ok := false
+			for _, o := range origins {
+				if !isKeysCall(o, "Get") {
+					continue
+				}
+				idPath := accessPath(callOf(o).Args[0])
+				okp, _ := mustPass(i.Block(), indexOf(i)+1, func(j ssa.Instruction) bool {
+					return isKeysCall(j, "Set") && accessPath(callOf(j).Args[0]) == idPath
+				}, nil)
+				if okp {
+					ok = true
+				}
+			}
+			c.check(ok, construct, u.ipos(i), "released only where the entry is replaced under the same id right after",
+				"the cache drops its own reference to a key that stays retrievable from the cache: the secret is destroyed while still cached (later users get 'secret has already been destroyed')")
+		})
+	}
 	// (3) count starts at 1; increment adds 1
 	if nk := u.Func(pkgApp, "newCachedCryptoKey"); nk == nil {
 		c.unresolved("newCachedCryptoKey", "appencryption.newCachedCryptoKey")
